@@ -62,7 +62,7 @@ impl std::fmt::Debug for ParseIntError { #[verifier::external_body] fn fmt(&self
 FROM_STR_RW = [
     RwFn("R4", r4_split_or_guard_arms, count=None),
     Rw("R5", r"vec!\[\]", "Vec::<TemplatePart>::new()", count=1),
-    Rw("R15", r"\.into\(\)", "", count=None),
+    Rw("R15", r"\.into\(\)", "", count="any"),
     Rw("R5", r"mem::take\(&mut buf\)", "take_string(&mut buf)", count=None),
     Rw("R5", r"buf\.parse\(\)", "parse_u16(&buf)", count=None),
 ]
